@@ -213,6 +213,8 @@ def bounded(rep: Report, tier, seed):
         k = min(m, n)
         for g in (1e-1, 1e-2, 1e-3):
             for r in (2, 3, k):
+                if g ** (r - 1) < 1e-8:
+                    continue        # numerically rank deficient (sigma_r < 1e-8 sigma_1): that regime is the rank < R finding, not this sweep
                 sv = [g ** i for i in range(r)]
                 A4 = rt.from_svd(rng, m, n, sv)[0]
                 for R in sorted({r, min(k, r + 1)} if r < k else {2, k}):
